@@ -31,6 +31,8 @@ Decides:
  H final first     the help/version lookup of a level is reachable only when the inner parser did not end with a final answer.
  F repetition      a failure inside some/many/.. is returned, never dropped with the values collected so far (an inner command's help would vanish with it).
  B forkers         who may clone the State (see C05).
+ A marker first    whether the run is a completion request (and the tokenizer's ambiguity error therefore withheld) is read from the state
+                   construct() returned - the shell stubs pass the revision marker as an ITEM, Args knows nothing of it beforehand.
 Does not decide: which of several failing fields is reported for a given line."""
 import re
 from core import *
